@@ -615,7 +615,7 @@ def check_read_vtk(st, g, pm):
     v = np.asarray(g.valid)
     if v.shape != fsh.valid.shape or not np.array_equal(v.astype(bool), fsh.valid):
         bad.append("validity differs from what was written")
-    if fsh.nvdim > 1:
+    if fsh.nvdim > 1 or fsh.vdims is not None:
         gv = None if g.vdims is None else list(g.vdims)
         if gv != list(fsh.vdims):
             bad.append(f"vdims {gv} written {fsh.vdims}")
@@ -640,7 +640,7 @@ def op_read(st, o):
         judged = pm.fmt == "ovf" and pm.rep in ("bin4", "bin8")
         if kind == "flip":
             if not res.raised:
-                raise Violation("damaged.accepted", f"{rel}: binary OVF with corrupted check value ({pm.damage[1]}) was read without error", preds=["flip", pm.rep], kind="F")
+                raise Violation("damaged.accepted", f"{rel}: binary OVF with corrupted check value ({pm.damage[1]}) was read without error", preds=["flip", pm.rep] + (["foreign"] if pm.foreign else []), kind="F")
             st.stats.oracle("F")
             return "rejected"
         where = pm.damage[1]
@@ -655,14 +655,14 @@ def op_read(st, o):
         st.stats.oracle("F")
         if where in ("header", "check", "data"):
             if not res.raised:
-                raise Violation("damaged.accepted", f"{rel}: binary OVF cut at byte {pm.damage[2]} (inside {where}; layout {pm.layout}) was read without error", preds=["cut", where, pm.rep], kind="F")
+                raise Violation("damaged.accepted", f"{rel}: binary OVF cut at byte {pm.damage[2]} (inside {where}; layout {pm.layout}) was read without error", preds=["cut", where, pm.rep] + (["foreign"] if pm.foreign else []), kind="F")
             return "rejected"
         # cut after the complete data block: exception or the complete, equal field
         if res.raised:
             return "rejected"
-        bad = check_read_ovf(st, res.v, pm)
+        bad = check_read_ovf(st, res.v, pm) if pm.foreign is None else check_foreign(st, res.v, pm)
         if bad:
-            raise Violation("damaged.wrong_field", f"{rel}: file cut in the footer at {pm.damage[2]} read as a different field: " + "; ".join(bad[:4]), preds=["cut", where, pm.rep], kind="F")
+            raise Violation("damaged.wrong_field", f"{rel}: file cut in the footer at {pm.damage[2]} read as a different field: " + "; ".join(bad[:4]), preds=["cut", where, pm.rep] + (["foreign"] if pm.foreign else []), kind="F")
         return "read-complete"
     if res.raised:
         raise Violation(
@@ -715,10 +715,13 @@ def op_flip_check(st, o):
         import struct
 
         val = {"nan": float("nan"), "inf": float("inf"), "zero": 0.0, "other": 1234567.0 if nb == 8 else 123456789012345.0, "neg": -(1234567.0 if nb == 4 else 123456789012345.0)}[how["kind"]]
-        data[h:c] = struct.pack("<f" if nb == 4 else "<d", val)
+        end = ">" if pm.foreign is not None and pm.foreign.get("version") == 1 else "<"
+        data[h:c] = struct.pack(end + ("f" if nb == 4 else "d"), val)
     st.fs.write_bytes(rel, bytes(data))
     pm.damage = ("flip", str(how))
     st.stats.fault("flip_check")
+    if pm.foreign is not None:
+        st.stats.probe("damaged_foreign_file")
     return "flipped"
 
 
@@ -727,9 +730,11 @@ def op_truncate(st, o):
     """The tail of a complete file is lost (same bytes as a crash of the writer there)."""
     rel = o["path"]
     pm = st.paths.get(rel)
-    if pm is None or pm.damage is not None or pm.foreign is not None:
+    if pm is None or pm.damage is not None or (pm.foreign is not None and pm.layout is None):
         return "skipped"
     size = st.fs.size(rel)
+    if pm.foreign is not None:
+        st.stats.probe("damaged_foreign_file")
     if pm.layout is not None:
         c = max(0, min(size - 1, resolve_cut(o["where"], pm.layout, pm.rep)))
         where = classify_cut(c, pm.layout)
@@ -809,8 +814,8 @@ def op_foreign_write(st, o):
         if d["rep"] == "bin4":
             arr = arr.astype("f4").astype("f8")
             fsh.array = arr
-        peers.write_foreign_ovf(st.fs.path(rel), d, pmin, pmax, mm.n, arr, labels=o.get("labels"), unit=o.get("unit") or "A/m", meshunit=o.get("meshunit", "m"))
-        pm = PathM("ovf", d["rep"], {}, fsh, [], None, foreign=d)
+        layout = peers.write_foreign_ovf(st.fs.path(rel), d, pmin, pmax, mm.n, arr, labels=o.get("labels"), unit=o.get("unit") or "A/m", meshunit=o.get("meshunit", "m"))
+        pm = PathM("ovf", d["rep"], {}, fsh, [], layout, foreign=d)
     elif kind == "hdf5-legacy":
         peers.write_legacy_hdf5(st.fs.path(rel), pmin, pmax, mm.n, arr)
         pm = PathM("hdf5", None, {}, fsh, [], None, foreign=o["dialect"])
